@@ -432,14 +432,17 @@ arms the datagrams of `Out.wire` whose type field says REG1 / REG2 are exactly t
 in order, each addressed to the conn id of the link index the machine names (a broadcast: one copy per
 link, in link order) — the only other datagrams of a housekeeping tick are keepalives; in every other
 arm the machine emits nothing (what those arms put on the wire is forwarded client data, C01); conn
-ids and the number of links never change. -/
-theorem C07_shell_projects (s : Srtla.Sys.Sys F) (e : Srtla.Sys.Ev) :
+ids and the number of links never change.
+`hnr`: every event EXCEPT `Ev.reload` — `apply_connection_changes` shifts the connections vector under the
+manager's index-keyed state without remapping it (observation in `assumptions`), so the index-named
+registration machine has no event for it; C07 speaks about the stretches of a run between two reloads. -/
+theorem C07_shell_projects (s : Srtla.Sys.Sys F) (e : Srtla.Sys.Ev) (hnr : e.isReload = false) :
     (Reg.Sys.run (abs s) (proj s e)).1 = abs (Srtla.Sys.step s e).1 ∧
     (RegArm e → (Srtla.Sys.step s e).2.wire.filter isRegFrame =
       (Reg.Sys.run (abs s) (proj s e)).2.flatMap (regWire s)) ∧
     (¬ RegArm e → (Reg.Sys.run (abs s) (proj s e)).2 = []) ∧
     cids (Srtla.Sys.step s e).1.links = cids s.links :=
-  ⟨(projects s e).state, (projects s e).wire, (projects s e).quiet, (projects s e).ids⟩
+  ⟨(projects s e hnr).state, (projects s e hnr).wire, (projects s e hnr).quiet, (projects s e hnr).ids⟩
 
 /-- The `uplink` arm, without the filter: the WHOLE wire output of an `uplink` event is the machine's
 emission list (empty, or one immediate REG1 to the arrival conn id). -/
@@ -451,11 +454,11 @@ theorem C07_shell_projects_uplink (s : Srtla.Sys.Sys F) (now cid : Nat) (data : 
 /-- Run form: after ANY shell run the machine run over the projected events is in the abstraction of
 the shell's state; from a start-up state the ghost-instrumented machine state is `Reachable`, so all the
 theorems of the first part of this file apply to it. -/
-theorem C07_shell_projects_run (s0 : Srtla.Sys.Sys F) (evs : List Srtla.Sys.Ev) :
+theorem C07_shell_projects_run (s0 : Srtla.Sys.Sys F) (evs : List Srtla.Sys.Ev) (hnr : Srtla.Sys.NoReload evs) :
     (Reg.Sys.run (abs s0) (projRun s0 evs)).1 = abs (runS s0 evs) ∧
     (ghostAt s0 evs).sys = abs (runS s0 evs) ∧
     (Startup s0 → Reachable (ghostAt s0 evs)) :=
-  ⟨run_projRun s0 evs, ghostAt_sys s0 evs, fun h => ghostAt_reachable h evs⟩
+  ⟨run_projRun s0 evs hnr, ghostAt_sys s0 evs hnr, fun h => ghostAt_reachable h evs⟩
 
 -- what the constructors project to
 example (s : Srtla.Sys.Sys F) (now : Nat) : proj s (.flush now) = [] ∧ proj s (.crit now) = [] ∧
@@ -483,7 +486,8 @@ wire whose type field says REG1 (0x9200) goes to the conn id of one and the same
 is pending after the event.  (Remark, with `step_sends` and `C07_abandon_tick` below: an `uplink` REG1
 needs nothing pending before the event, and a tick that finds an attempt pending either keeps it on its
 uplink or abandons it and then sends no REG1 in the same tick.) -/
-theorem C07_single_outstanding_shell (s0 : Srtla.Sys.Sys F) (h0 : Startup s0) (evs : List Srtla.Sys.Ev) :
+theorem C07_single_outstanding_shell (s0 : Srtla.Sys.Sys F) (h0 : Startup s0) (evs : List Srtla.Sys.Ev)
+    (hnr : Srtla.Sys.NoReload evs) :
     (ghostAt s0 evs).gh.out.length ≤ 1 ∧
     (ghostAt s0 evs).gh.out = (runS s0 evs).reg.pending.toList ∧
     ∀ (e : Srtla.Sys.Ev) (d : Nat × List UInt8), RegArm e →
@@ -492,7 +496,7 @@ theorem C07_single_outstanding_shell (s0 : Srtla.Sys.Sys F) (h0 : Startup s0) (e
         (runS s0 evs).links[i]? = some l ∧ d.1 = l.core.connId := by
   have hx := ghostAt_reachable h0 evs
   obtain ⟨h1, h2, -⟩ := C07_single_outstanding hx
-  rw [ghostAt_sys] at h2
+  rw [ghostAt_sys _ _ hnr] at h2
   refine ⟨h1, h2, ?_⟩
   intro e d hra hd ht
   obtain ⟨o, ho, hdo, hpk⟩ := frame_origin (runS s0 evs) e hra d hd (by simp [isRegFrame, ht])
@@ -532,7 +536,8 @@ datagram on any wire whose type field says REG1 / REG2 is `createReg1 id` / `cre
 that id.  (The start-up probes are sent before the event loop and are not `Sys.step` output, see
 `C07_probe_ids`.  The `client` / `flush` arms forward what the SRT client wrote, byte for byte — C01 —
 whatever its first two bytes are: see the example below.) -/
-theorem C07_ids_shell (s0 : Srtla.Sys.Sys F) (h0 : Startup s0) (evs : List Srtla.Sys.Ev) :
+theorem C07_ids_shell (s0 : Srtla.Sys.Sys F) (h0 : Startup s0) (evs : List Srtla.Sys.Ev)
+    (hnr : Srtla.Sys.NoReload evs) :
     (runS s0 evs).reg.id = (ghostAt s0 evs).gh.adopted ∧ (runS s0 evs).reg.id.length = 256 ∧
     ∀ (e : Srtla.Sys.Ev) (d : Nat × List UInt8), RegArm e →
       d ∈ (Srtla.Sys.step (runS s0 evs) e).2.wire → isRegFrame d = true →
@@ -540,7 +545,7 @@ theorem C07_ids_shell (s0 : Srtla.Sys.Sys F) (h0 : Startup s0) (evs : List Srtla
   have hg := reachable_good (ghostAt_reachable h0 evs)
   have hid := hg.inv.id_eq
   have hlen := hg.idlen
-  rw [ghostAt_sys] at hid hlen
+  rw [ghostAt_sys _ _ hnr] at hid hlen
   refine ⟨hid.symm, hlen, ?_⟩
   intro e d hra hd hf
   obtain ⟨o, ho, -, hpk⟩ := frame_origin (runS s0 evs) e hra d hd hf
@@ -573,12 +578,13 @@ example :
 event and was not before, the event is an `uplink` datagram of type REG3 (0x9202 = 37378) on the conn
 id of that very link (`k` is the first link carrying that conn id).  No `client`, `flush`, `hk`,
 configuration or injection event ever sets a `connected` flag. -/
-theorem C07_connected_only_by_reg3_shell (s : Srtla.Sys.Sys F) (e : Srtla.Sys.Ev) (k : Nat) (l l' : Link.FLink F)
+theorem C07_connected_only_by_reg3_shell (s : Srtla.Sys.Sys F) (e : Srtla.Sys.Ev) (hnr : e.isReload = false)
+    (k : Nat) (l l' : Link.FLink F)
     (hl : s.links[k]? = some l) (hl' : (Srtla.Sys.step s e).1.links[k]? = some l')
     (h1 : l'.core.connected = true) (h0 : l.core.connected = false) :
     ∃ now cid data, e = .uplink now cid data ∧ data ≠ [] ∧ l.core.connId = cid ∧
       s.links.findIdx? (·.core.connId == cid) = some k ∧ Codec.getPacketTypeS data = some 37378 := by
-  obtain ⟨now, cid, data, he, hne, hidx, ht⟩ := connected_only_reg3 s e k
+  obtain ⟨now, cid, data, he, hne, hidx, ht⟩ := connected_only_reg3 s e hnr k
     (by unfold flags; rw [List.getElem?_map, hl']; simp [h1])
     (by unfold flags; rw [List.getElem?_map, hl]; simp [h0])
   obtain ⟨l2, hl2, hc⟩ := Uplink.findIdx_get s.links cid k hidx
@@ -635,11 +641,17 @@ theorem C07_broadcast_all_uplinks_once (s : Srtla.Sys.Sys F) (now : Nat) :
           · rw [h.1]; simp
           · exact absurd h.2.1 (by simp [Ev.IsDriver])
       | _ => exact absurd hra (fun h => h)
-    · rw [(projects s e).quiet hra] at ho
+    · rw [projects_quiet s e hra] at ho
       simp at ho
   · intro e h1 h0
+    have hnr : e.isReload = false := by
+      cases e with
+      | reload t addrs outs =>
+        -- a reload does not touch the registration manager
+        exact absurd (show s.reg.broadcastPending = true from h1) (by rw [h0]; simp)
+      | _ => rfl
     have hst : (Reg.Sys.run (abs s) (proj s e)).1.reg.broadcastPending = true := by
-      rw [(projects s e).state]; exact h1
+      rw [(projects s e hnr).state]; exact h1
     by_cases hra : RegArm e
     · cases e with
       | uplink t cid data =>
@@ -754,13 +766,14 @@ theorem C07_abandon_bound (s0 : Srtla.Sys.Sys F) (h0 : Startup s0) (evs1 evs2 : 
     (hnb : (runS s0 evs1).failBind.contains l.core.connId = false)
     (hun : Unanswered i (runS s0 evs1) evs2)
     (hev : ∀ e ∈ evs2, e ≠ .failNext l.core.connId ∧ ∀ now, e = .hk now → 0 < now)
-    (hevb : ∀ e ∈ evs2, e ≠ .failBind l.core.connId) :
+    (hevb : ∀ e ∈ evs2, e ≠ .failBind l.core.connId)
+    (hnr1 : Srtla.Sys.NoReload evs1) (hnr2 : Srtla.Sys.NoReload evs2) :
     (runS s0 (evs1 ++ evs2)).reg.pending = some i ∧
     ((runS s0 (evs1 ++ evs2)).reg.pendingTimeoutAt = D ∨
       ∃ t, 0 < t ∧ t < D ∧ (runS s0 (evs1 ++ evs2)).reg.pendingTimeoutAt = t + 4000) ∧
     (runS s0 (evs1 ++ evs2)).reg.pendingTimeoutAt < D + 4000 ∧
     ∀ pre now post, evs2 = pre ++ Srtla.Sys.Ev.hk now :: post → now < D + 3999 := by
-  obtain ⟨hA, hticks⟩ := abandon_bound h0 i D l evs2 evs1 hp hD hl hnf hnb hun hev hevb
+  obtain ⟨hA, hticks⟩ := abandon_bound h0 i D l evs2 evs1 hnr1 hnr2 hp hD hl hnf hnb hun hev hevb
   refine ⟨hA.pending, ?_, hA.deadline_lt, hticks⟩
   obtain ⟨l', -, -, h | ⟨t, a, b, c, -⟩⟩ := hA.link
   · exact Or.inl h
@@ -800,7 +813,7 @@ example : (runS exShell ([.uplink 4000 1 ngp] ++ [.hk 5100, .client 5200 exData,
     (by
       intro e he
       simp only [List.mem_cons, List.not_mem_nil, or_false] at he
-      rcases he with rfl | rfl | rfl <;> simp)).2.2.1
+      rcases he with rfl | rfl | rfl <;> simp) (by decide) (by decide)).2.2.1
 
 /-- One round of the second example: a send failure is injected for conn id 1, four client datagrams
 reach the batch threshold of the low-activity regime on the pending link (pre-registration forwarding
